@@ -263,7 +263,7 @@ def seeded_changes():
         if os.path.exists(meta) and os.path.exists(patch):
             m = json.load(open(meta))
             out.append({'id': 'seeded/' + name, 'property': m['property'],
-                        'patch': patch, 'expect': m.get('detected_by', m['property']),
+                        'patch': patch, 'expect': m.get('detected_by') or m['property'],
                         'known_miss': m.get('known_miss', False)})
     return out
 
